@@ -475,6 +475,11 @@ func (n *Node) Retrieve() {
 		before := n.DAOf().NumCalls()
 		time.Sleep(110 * time.Millisecond)
 		synctest.Wait()
+		for i := 0; i < 120 && n.DAOf().InFlight() > 0; i++ {
+			// a fetch is hanging inside the DA layer: wait for the loop's own fetch timeout
+			time.Sleep(time.Second)
+			synctest.Wait()
+		}
 		return n.DAOf().NumCalls() != before
 	})
 	n.drain()
